@@ -214,7 +214,7 @@ func New(opts Options) (*Vaxis, error) {
 	vx.chClipboard = make(chan string)
 	vx.chSigWinSz = make(chan os.Signal, 1)
 	vx.chSigKill = make(chan os.Signal, 1)
-	vx.chCursorPos = make(chan [2]int)
+	vx.chCursorPos = make(chan [2]int, 1)
 	vx.chQuit = make(chan bool)
 	vx.chSizeDone = make(chan bool, 1)
 	vx.charCache = make(map[string]int, 256)
@@ -822,9 +822,15 @@ func (vx *Vaxis) handleSequence(seq ansi.Sequence) {
 					log.Error("not enough DSRCPR params")
 					return
 				}
-				vx.chCursorPos <- [2]int{
+				// Never block the input loop on a reply: if the requester
+				// already timed out, the report stays buffered and is
+				// discarded by the next request
+				select {
+				case vx.chCursorPos <- [2]int{
 					seq.Parameters[0][0],
 					seq.Parameters[1][0],
+				}:
+				default:
 				}
 				return
 			}
@@ -955,7 +961,12 @@ func (vx *Vaxis) handleSequence(seq ansi.Sequence) {
 					vx.PostEventBlocking(textAreaChar{})
 					return
 				}
-				vx.chSizeDone <- true
+				// Never block the input loop: an unsolicited or repeated
+				// report finds the previous notification still buffered
+				select {
+				case vx.chSizeDone <- true:
+				default:
+				}
 			case 48:
 				// CSI <type> ; <height> ; <width> ; <height_pix> ; <width_pix> t
 				switch len(seq.Parameters) {
@@ -1057,21 +1068,39 @@ func (vx *Vaxis) handleSequence(seq ansi.Sequence) {
 			// content. In this case, we don't want to fill the channel buffer
 			// as no one will clear it.
 			if vx.CanReportColor() {
-				vx.chColor <- string(seq.Payload)
+				// Never block the input loop: an unsolicited or repeated
+				// reply finds the previous one still buffered and is
+				// dropped
+				select {
+				case vx.chColor <- string(seq.Payload):
+				default:
+				}
 			}
 			vx.PostEventBlocking(capabilityOsc4{})
 		}
 		if strings.HasPrefix(string(seq.Payload), "10") {
 			// Similar to OSC 4
 			if vx.CanReportForegroundColor() {
-				vx.chFg <- string(seq.Payload)
+				// Never block the input loop: an unsolicited or repeated
+				// reply finds the previous one still buffered and is
+				// dropped
+				select {
+				case vx.chFg <- string(seq.Payload):
+				default:
+				}
 			}
 			vx.PostEventBlocking(capabilityOsc10{})
 		}
 		if strings.HasPrefix(string(seq.Payload), "11") {
 			// Similar to OSC 4
 			if vx.CanReportBackgroundColor() {
-				vx.chBg <- string(seq.Payload)
+				// Never block the input loop: an unsolicited or repeated
+				// reply finds the previous one still buffered and is
+				// dropped
+				select {
+				case vx.chBg <- string(seq.Payload):
+				default:
+				}
 			}
 			vx.PostEventBlocking(capabilityOsc11{})
 		}
@@ -1120,6 +1149,12 @@ func (vx *Vaxis) QueryColor(c Color) Color {
 	if len(p) != 1 {
 		return Color(0)
 	}
+	// Discard a reply nobody collected (unsolicited, or late for an earlier
+	// query)
+	select {
+	case <-vx.chColor:
+	default:
+	}
 	vx.tw.WriteStringLocked(tparm(osc4, p[0]))
 	resp := <-vx.chColor
 	var r, g, b int
@@ -1144,6 +1179,12 @@ func (vx *Vaxis) QueryForeground() Color {
 	if !vx.CanReportForegroundColor() {
 		return Color(0)
 	}
+	// Discard a reply nobody collected (unsolicited, or late for an earlier
+	// query)
+	select {
+	case <-vx.chFg:
+	default:
+	}
 	vx.tw.WriteStringLocked(osc10)
 	resp := <-vx.chFg
 	var r, g, b int
@@ -1163,6 +1204,12 @@ func (vx *Vaxis) QueryForeground() Color {
 func (vx *Vaxis) QueryBackground() Color {
 	if !vx.CanReportBackgroundColor() {
 		return Color(0)
+	}
+	// Discard a reply nobody collected (unsolicited, or late for an earlier
+	// query)
+	select {
+	case <-vx.chBg:
+	default:
 	}
 	vx.tw.WriteStringLocked(osc11)
 	resp := <-vx.chBg
@@ -1473,6 +1520,11 @@ func (vx *Vaxis) showCursor() string {
 // -1,-1 if the query times out or fails
 func (vx *Vaxis) CursorPosition() (row int, col int) {
 	// DSRCPR - reports cursor position
+	// Discard a report that arrived after an earlier request timed out
+	select {
+	case <-vx.chCursorPos:
+	default:
+	}
 	atomicStore(&vx.reqCursorPos, true)
 	_, _ = io.WriteString(vx.console, dsrcpr)
 	timeout := time.NewTimer(50 * time.Millisecond)
